@@ -98,6 +98,11 @@ CHECKS.update({
          "TLC checks that queued jobs always belong to a live owner in the incarnation that scheduled them, that keys are unique and denote one (owner, reference), that firings are on time, that Cancel answers not-found exactly for unknown references and that an API call on one actor never changes another actor's jobs - for the key derivation of record, and (self-test) shows the concatenated key violating them. Simulated behaviours (two families: plain names, names and references containing ':') are executed by scripted actors under a restarting supervisor; a hook marks the start of every firing. SchedMon: not before the n-th instant, once fires/delivers once, nothing fires/arrives after cancel / clear / death / restart (beyond a grace for a firing already under way), invalid Cron is a parse error and schedules nothing, Cancel answers, dead letter only for a dead receiver, original value, delivery to the named receiver, and lower bounds (what was due while the job lived has arrived).",
          "Real time: go-quartz (third party) owns the clock; a run is judged only if a canary timer was never more than 25 ms late; grace 35 ms (firing hook) / 150 ms (delivery), slack 45 ms for lower bounds, so a cancellation within a few milliseconds of the firing instant is tolerated either way.",
          "§5 C20"),
+ "C18": ("model_checking",
+         "TLA+ spec Gossip (one action per message handled by NodeActor: launch/bootstrap, join as an atomic Ask exchange, gossip delivery with merge and re-broadcast, gossip tick, the suppression rule, FIFO channel per node pair, crash/restart/leave/cut/lose), TLC exhaustive for 3 nodes incl. liveness; TLC-simulated behaviours replayed step by step on real NodeActor objects in a deterministic simulator with state comparison after every step; random scenarios on 4-7 nodes; traces validated by TLC against ConvergeMon",
+         "TLC checks, for all launch orders and delivery interleavings of 3 nodes with one or two seeds, that whenever nothing is in flight and nobody would send, all running nodes hold the same members in the same incarnations, computed and announced the same leader, and exactly one considers itself leader; and (liveness, weak fairness on deliveries, ticks and join retries) that this is eventually reached for good. With one fault the model itself shows that a crashed member is never removed (recorded finding). The simulator runs the real NodeActor code against a mock actor context (messages through the real wire codec); 2,451 replayed model steps agree with the code state-for-state (members, incarnations, version vectors, announced leader). ConvergeMon on the final fixpoint (three rounds of all deliveries and timers changing nothing): EventuallyStable, SameMembers, SameLeader, LeaderAnnounced, ExactlyOneLeader, JoinedNodeKnownToAll, NewestIncarnationEverywhere, NoShadowIncarnation, CrashedNodeAbsent, LeftNodeAbsent, OnlyRunningNodes, and nothing changes or is announced in five further rounds.",
+         "The simulator replaces mailbox, remoting and scheduler by a deterministic driver (one OnReceive at a time, FIFO per pair, Ask answered inside the caller's turn). Failure detection reads the wall clock: simulated with a 30 ms time-out in a few healthy-cluster scenarios. KNOWN FINDINGS KF-C18-1..4 (crashed / left members never removed, fresh NodeID shadows the old incarnation, failure detection removes live members for ever).",
+         "§5 C18"),
 })
 
 NOT_YET = {
